@@ -84,7 +84,25 @@ Definition set_default (d : pdict) (key : str) : pdict :=
    output of the rule, the name is the project name, deps are the creator outputs of its
    dependencies (None: no creator) *)
 Record spec := { sp_key : str; sp_name : str; sp_deps : list (option str) }.
-Record run_in := { r_specs : list spec; r_default : option str }.
+
+(* builtins/default.py: the explicit defaults (default(...) calls, in call order) and the implicit ones
+   (every step output not taken out again by test()), as keys of the solution.  msbuild_default, the
+   post-rules hook of the MSBuild backend, calls Solution.set_default ONCE: with the first explicit
+   default, else with the last implicit one, else not at all. *)
+Fixpoint last_opt (l : list str) : option str :=
+  match l with
+  | [] => None
+  | [x] => Some x
+  | _ :: r => last_opt r
+  end.
+Definition default_choice (explicit fallback : list str) : option str :=
+  match explicit with
+  | x :: _ => Some x
+  | [] => last_opt fallback
+  end.
+
+Record run_in := { r_specs : list spec; r_explicit : list str; r_fallback : list str }.
+Definition r_default (r : run_in) : option str := default_choice (r_explicit r) (r_fallback r).
 
 (* what the .sln says: the solution GUID and, in order, the projects *)
 Definition sln := (uuid * list project)%type.
